@@ -24,7 +24,7 @@ func amp[T constraints.Integer](v T) int64 {
 	}
 	w := widthOf[T]()
 	if w == 64 {
-		return int64(uint64(v) ^ (1 << 63))
+		return int64(uint64(v) - (1 << 63)) // wraps: the same as flipping the top bit
 	}
 	return int64(v) - int64(1)<<(w-1)
 }
@@ -36,7 +36,7 @@ func code[T constraints.Integer](a int64) T {
 	}
 	w := widthOf[T]()
 	if w == 64 {
-		return T(uint64(a) ^ (1 << 63))
+		return T(uint64(a) + (1 << 63))
 	}
 	return T(a + int64(1)<<(w-1))
 }
